@@ -710,6 +710,70 @@ pub fn run_c03(o: &Opts) {
       }
     }
   }
+  // a repeated `$V0` whose SECOND occurrence lines up with an anonymous token carrying the very text the first
+  // occurrence bound (a named leaf such as an empty statement `;`): a named hole binds only named nodes, also
+  // when the variable is already bound. Constructed, not drawn: both spans of a small common ancestor are
+  // replaced by the same variable and the result is tried on that ancestor.
+  for lang in langs_for(o, 3) {
+    let mut srcs = corpus::sources(lang, &mut rng, 3, 2500);
+    let extra: &[&str] = match lang {
+      SupportLang::JavaScript | SupportLang::TypeScript | SupportLang::Tsx => &["function f() { ; return; }", "for (;;) { ; }"],
+      SupportLang::Rust => &["fn f() { ; return; }"],
+      SupportLang::C | SupportLang::Cpp => &["void f() { ; return; }"],
+      SupportLang::Java => &["class A { void f() { ; return; } }"],
+      SupportLang::CSharp => &["class A { void F() { ; return; } }"],
+      SupportLang::Go => &["func f() { ; return; }"],
+      SupportLang::Php => &["<?php function f() { ; return; }"],
+      _ => &[],
+    };
+    srcs.extend(extra.iter().map(|s| s.to_string()));
+    for src in &srcs {
+      let sg = corpus::parse(lang, src);
+      let all = corpus::all_nodes(sg.root());
+      let tokens: Vec<&N> = all.iter().filter(|u| !u.is_named() && u.children().len() == 0 && !u.range().is_empty() && u.range().len() <= 8).collect();
+      let leaves: Vec<&N> = all.iter().filter(|n| n.is_named() && !n.range().is_empty() && n.range().len() <= 8 && n.children().all(|c| !c.is_named())).collect();
+      let mut made = 0;
+      'outer: for n in &leaves {
+        for u in &tokens {
+          if made >= (if o.thorough { 40 } else { 12 }) {
+            break 'outer;
+          }
+          let (nr, ur) = (n.range(), u.range());
+          if nr.start < ur.end && ur.start < nr.end || n.text() != u.text() {
+            continue;
+          }
+          // the smallest named ancestor of both
+          let Some(anc) = n.ancestors().find(|a| a.is_named() && a.range().start <= ur.start && ur.end <= a.range().end) else { continue };
+          if anc.range().len() > 200 || subtree_size(&anc) > 60 || !is_sigil_free(&anc.text(), lang) {
+            continue;
+          }
+          let base = anc.range().start;
+          let text = anc.text().to_string();
+          let mut spans = [(nr.start - base, nr.end - base), (ur.start - base, ur.end - base)];
+          spans.sort();
+          let mut ptext = String::new();
+          let mut at = 0;
+          for (a, b) in spans {
+            ptext.push_str(&text[at..a]);
+            if ptext.chars().last().map_or(false, |c| c.is_alphanumeric() || c == '_') {
+              ptext.push(' ');
+            }
+            ptext.push_str("$V0");
+            if text[b..].chars().next().map_or(false, |c| c.is_alphanumeric() || c == '_') {
+              ptext.push(' ');
+            }
+            at = b;
+          }
+          ptext.push_str(&text[at..]);
+          made += 1;
+          out.count("planned:backref-on-anonymous-token");
+          for si in [1usize, rng.below(5)] {
+            plan.push(Planned { lang, src: src.clone(), ptext: ptext.clone(), start: anc.range().start, end: anc.range().end, kind: anc.kind_id(), si });
+          }
+        }
+      }
+    }
+  }
   // the planned cases are executed in a shuffled order ACROSS languages and sources, so that any state
   // kept between matches (caches keyed too coarsely, thread-locals) is exercised; the matcher is a pure
   // function of (pattern, node), so the model's answer does not depend on the order
